@@ -125,7 +125,9 @@ def check_assignment(res, sizes, g):
 
 
 def call_assign(cls, sizes, g):
-    fake = SimpleNamespace(_group_size=g, _dist_group_size=g)
+    # the group size is what the assignment depends on; the other size attributes of the real distributors are present with
+    # different values, so that code reading the wrong one yields a wrong assignment instead of an AttributeError here
+    fake = SimpleNamespace(_group_size=g, _dist_group_size=g, _global_size=2 * g + 1, _replicated_group_size=2 * g + 1, _group_rank=0, _global_rank=0)
     return tuple(cls._distribute_buffer_sizes(fake, tuple(sizes)))
 
 
@@ -153,7 +155,11 @@ def check_geometry(torch, cps, sizes, g):
     out = []
     aligned = [(s + ALIGN - 1) // ALIGN * ALIGN for s in sizes]
     for name, cls in cps.items():
-        bsr = call_assign(cls, sizes, g)
+        try:
+            bsr = call_assign(cls, sizes, g)
+        except Exception as e:
+            out.append((name, f"_distribute_buffer_sizes raised {type(e).__name__}: {str(e)[:80]}"))
+            continue
         loads = [sum(s for s, r in bsr if r == i) for i in range(g)]
         mx = max(loads) if loads else 0
         buf = torch.zeros(mx * g, dtype=torch.int8)
